@@ -16,12 +16,12 @@ from checks import scen
 PID = "C06"
 MODULE = "checks.c06"
 MS, ME, MD = 0.0, 3.0, 1.0
-SCEN = {"A": "sm1", "B": "sm1", "C": "sm2"}
-OPS = ["run", "sess_const", "step_const", "sess_points", "step_points", "reset", "open_step"]
+SCEN = {"A": "sm1", "B": "sm1", "C": "sm2", "D": "sm1"}
+OPS = ["run", "sess_const", "step_const", "sess_points", "step_points", "reset", "open_step", "register_late"]
 
 
 def histories(tier):
-    alphabet = [(o, x) for o in OPS for x in ("A", "B", "C")]
+    alphabet = [(o, x) for o in OPS if o != "register_late" for x in ("A", "B", "C")] + [("register_late", "E")]
     out = [[a] for a in alphabet]
     out += [[a, b] for a in alphabet for b in alphabet]
     if tier == "thorough":
@@ -40,13 +40,20 @@ class World(object):
         self.n = 0
         self.base = scen.base_model(MS, ME, MD, name="shared")
         self.b = BPTK_Py.bptk()
-        self.b.register_scenario_manager({"sm1": {"model": self.base}})
+        # manager sm1 carries base constants and base points: defaults for every scenario that does not override them
+        bc = self.const("base_c")
+        bp2 = self.points("base_p2", xs=(0.0, 4.0))
+        self.base_settings = ({"c": bc}, {"pts2": bp2})
+        self.b.register_scenario_manager({"sm1": {"model": self.base, "base_constants": {"c": bc}, "base_points": {"pts2": bp2}}})
         self.b.register_scenario_manager({"sm2": {"model": self.base}})
         ak = self.const("regA_k")
         cp = self.points("regC")
-        self.b.register_scenarios(scenario_manager="sm1", scenarios={"A": {"constants": {"k": ak}}, "B": {}})
+        self.b.register_scenarios(scenario_manager="sm1", scenarios={"A": {"constants": {"k": ak}}, "B": {}, "D": {}})
         self.b.register_scenarios(scenario_manager="sm2", scenarios={"C": {"points": {"pts": cp}}})
-        self.settings = {"A": ({"k": ak}, {}), "B": ({}, {}), "C": ({}, {"pts": cp})}     # persistent (constants, points)
+        # persistent (constants, points) per scenario
+        self.settings = {"A": ({"k": ak, "c": bc}, {"pts2": bp2}), "B": ({"c": bc}, {"pts2": bp2}), "D": ({"c": bc}, {"pts2": bp2}),
+                         "C": ({}, {"pts": cp})}
+        self.managers = dict(SCEN)
         self.open = None
 
     def const(self, name):
@@ -54,18 +61,25 @@ class World(object):
             return scen.sym_const(name)
         return float(self.env.get(name, _default(name)))
 
-    def points(self, prefix):
+    def points(self, prefix, xs=(0.0, 2.0, 4.0, 50.0)):
         if self.mode == "sym":
-            return scen.sym_points(prefix)
-        return [[x, float(self.env.get("%s_y%d" % (prefix, i), _default("%s_y%d" % (prefix, i))))] for i, x in enumerate((0.0, 2.0, 4.0, 50.0))]
+            return scen.sym_points(prefix, xs)
+        return [[x, float(self.env.get("%s_y%d" % (prefix, i), _default("%s_y%d" % (prefix, i))))] for i, x in enumerate(xs)]
 
     def fresh(self):
         self.n += 1
         return "op%d" % self.n
 
     def apply(self, op, x):
-        b, mgr = self.b, SCEN[x]
+        b = self.b
         tag = self.fresh()
+        if op == "register_late":
+            # a scenario registered after others were re-parameterised starts from the manager's base settings only
+            b.register_scenarios(scenario_manager="sm1", scenarios={x: {}})
+            self.managers[x] = "sm1"
+            self.settings[x] = (dict(self.base_settings[0]), dict(self.base_settings[1]))
+            return
+        mgr = self.managers[x]
         if op == "run":
             b.run_scenarios(scenarios=[x], scenario_managers=[mgr], equations=scen.EQS)
         elif op == "reset":
@@ -102,7 +116,7 @@ class World(object):
     def observe(self):
         """{who: {eq: {t: v}}} for the three scenarios (batch run) and the base model"""
         out = {}
-        for x, mgr in SCEN.items():
+        for x, mgr in self.managers.items():
             if x == self.open:
                 continue                       # a scenario with a live session is observed through its session (C09)
             df = self.b.run_scenarios(scenarios=[x], scenario_managers=[mgr], equations=scen.EQS, return_format="df")
@@ -113,7 +127,7 @@ class World(object):
 
     def expected(self):
         out = {}
-        for x in SCEN:
+        for x in self.managers:
             if x == self.open:
                 continue
             cs, ps = self.settings[x]
@@ -215,7 +229,8 @@ def signature(hist, info):
     if i == -2:
         return "raised:%s" % "/".join(o for o, x in hist)
     op, x = hist[i]
-    rel = "self" if who == x else ("base" if who == "base" else ("sibling" if SCEN.get(who) == SCEN.get(x) else "other-manager"))
+    M = dict(SCEN, E="sm1")
+    rel = "self" if who == x else ("base" if who == "base" else ("sibling" if M.get(who) == M.get(x) else "other-manager"))
     return "leak:%s->%s" % (op, rel)
 
 
